@@ -225,6 +225,38 @@ def tok_records(rnd, tier):
                 R = rand_state(model, rnd, wide=(k % 2 == 0))
                 if k % 5 == 0 and model in ("sw", "euler"):          # strong ratios up to 1e6
                     R[0] = L[0] * 10.0 ** rnd.uniform(-6, 6)
+                if k % 4 == 1 and model == "euler" and ("euler", name) in UPWIND:
+                    # both states supersonic in one direction with density ratios up to 1e6 and Mach numbers from barely
+                    # supersonic (the light side) to 50 (the heavy side): the Roe average decides, and its weights matter
+                    g_ = float(par)
+
+                    def roe_mach(A_, B_, wfun):
+                        w0 = wfun(math.sqrt(B_[0] / A_[0]))
+                        t0 = 1.0 / (1.0 + w0)
+                        H0 = [g_ * W[2] / ((g_ - 1) * W[0]) + W[1] ** 2 / 2 for W in (A_, B_)]
+                        u0 = t0 * (A_[1] + w0 * B_[1])
+                        c20 = (g_ - 1) * (t0 * (H0[0] + w0 * H0[1]) - u0 * u0 / 2)
+                        return abs(u0) / math.sqrt(c20) if c20 > 0 else 0.0
+                    # prefer pairs whose premise DEPENDS on the weights of the average: supersonic with the exact weights, not with
+                    # plausible wrong ones (weights exchanged, square-rooted, clipped to two decades) -- up to 300 draws
+                    for _try in range(300):
+                        sg_ = rnd.choice([1.0, -1.0])
+                        rl_ = 10.0 ** rnd.uniform(-1, 1)
+                        rr_ = rl_ * 10.0 ** (rnd.uniform(1, 6) * rnd.choice([1, -1]))
+                        st_ = []
+                        for rho_ in (rl_, rr_):
+                            p_ = 10.0 ** rnd.uniform(-2, 2)
+                            c_ = math.sqrt(g_ * p_ / rho_)
+                            heavy_ = rho_ == max(rl_, rr_)
+                            mach_ = rnd.choice([rnd.uniform(1.02, 1.5), rnd.uniform(1.5, 5.0), rnd.uniform(5.0, 50.0)])
+                            if _try % 2:
+                                mach_ = rnd.uniform(5.0, 50.0) if heavy_ else rnd.uniform(1.02, 1.3)
+                            st_.append([rho_, sg_ * mach_ * c_, p_])
+                        L, R = st_
+                        if roe_mach(L, R, lambda w: w) > 1.001 and min(
+                                roe_mach(L, R, lambda w: 1.0 / w), roe_mach(L, R, lambda w: math.sqrt(w)),
+                                roe_mach(L, R, lambda w: min(max(w, 1e-2), 1e2)), roe_mach(L, R, lambda w: 1.0)) < 0.999:
+                            break
                 if k % 7 == 0:                                       # sonic / zero velocity / equal states
                     R = list(L)
                 if k % 11 == 0 and len(L) > 1:
@@ -262,15 +294,20 @@ def tok_records(rnd, tier):
                 want = [par_ * F(x) if math.isfinite(x) else F(0) for par_, x in zip(PARITY[model], fLR)]
                 scm = [max(abs(x) if math.isfinite(x) else 1e300, b, float(s2)) for x, b, s2 in zip(fLR, base, sR)]
                 rec["mirror"] = comp_ulps(fm, want, scm) if all(math.isfinite(x) for x in fLR + fm) else core.ULP_CAP
-                # upwinding: sufficient supercriticality without the Roe average
+                # upwinding: the premise of the property, decided with the exactly weighted Roe average (floats, margin 1e-6)
                 if (model, name) in UPWIND:
                     if model == "euler":
-                        c2 = [par * W[2] / W[0] for W in (WL, WR)]
-                        du2 = (WL[1] - WR[1]) ** 2
-                        bound = max(c2) + (par - 1) / 8 * du2
-                        if WL[1] > 0 and WR[1] > 0 and min(WL[1] ** 2, WR[1] ** 2) > bound:
+                        g_ = float(par)
+                        cs_ = [math.sqrt(g_ * W[2] / W[0]) for W in (L, R)]
+                        w_ = math.sqrt(R[0] / L[0])
+                        t_ = 1.0 / (1.0 + w_)
+                        Hs_ = [g_ * W[2] / ((g_ - 1) * W[0]) + W[1] ** 2 / 2 for W in (L, R)]
+                        ur_ = t_ * (L[1] + w_ * R[1])
+                        c2r_ = (g_ - 1) * (t_ * (Hs_[0] + w_ * Hs_[1]) - ur_ * ur_ / 2)
+                        roe_sup = c2r_ > 0 and abs(ur_) > math.sqrt(c2r_) * (1 + 1e-6)
+                        if roe_sup and ur_ > 0 and L[1] > cs_[0] * (1 + 1e-9) and R[1] > cs_[1] * (1 + 1e-9):
                             rec["upwind"] = comp_ulps(fLR, pL, [float(s) for s in sL])
-                        elif WL[1] < 0 and WR[1] < 0 and min(WL[1] ** 2, WR[1] ** 2) > bound:
+                        elif roe_sup and ur_ < 0 and -L[1] > cs_[0] * (1 + 1e-9) and -R[1] > cs_[1] * (1 + 1e-9):
                             rec["upwind"] = comp_ulps(fLR, pR, [float(s) for s in sR])
                     elif model == "sw":
                         c2 = [par * W[0] for W in (WL, WR)]
